@@ -446,6 +446,14 @@ impl MerkleTree {
         }
 
         if instructions.is_empty() {
+            if indexed.is_some() && p.nodes.is_none() {
+                // The requested block or tree node is not covered by this proof: it lies
+                // beyond the requested upgrade, or it spans the upgrade start.
+                return Err(HypercoreError::InvalidOperation {
+                    context: "Requested block or hash is not covered by the requested upgrade"
+                        .to_string(),
+                });
+            }
             let (data_block, data_hash): (Option<DataHash>, Option<DataHash>) =
                 if let Some(block) = block.as_ref() {
                     (
